@@ -446,7 +446,14 @@ def _apply_reject(world, lv, op, rng):
     for s in sizes:
         n *= s
     if w == "bad_delta":
-        obj.delta = rng.pick([0.0, 1.0, 1.5, -0.25])
+        bad = rng.pick([0.0, 1.0, 1.5, -0.25])
+        if nd > 1 and rng.chance(0.6):
+            # one valid and one invalid component: a partially applied edit must not leave derived data behind
+            vals = [rng.pick([0.5, 0.25, 0.2, 0.125]) for _ in range(nd)]
+            vals[rng.randrange(nd)] = bad
+            obj.delta = tuple(vals)
+        else:
+            obj.delta = bad
     elif w == "bad_sample":
         if nd == 1:
             obj.sample_size = 2.5
